@@ -5,7 +5,7 @@ import comp_check
 
 RULE = ("correspondence: random operation sequences (pushes incl. forced/dry-mass/sub-epsilon, pulls, pollutant pulls, "
         "evaporation, checks, balance calls, timestep ends with varying temperature) on Tank/ResidenceTank/DecayTank, "
-        "QueueTank/DecayQueueTank, Arc/PullArc/PushArc, QueueArc/DecayArc and AltQueueArc/DecayArcAlt between tank-backed or scripted (accept all / "
+        "QueueTank/DecayQueueTank, Arc/PullArc/PushArc, QueueArc/DecayArc and AltQueueArc/DecayArcAlt, and the nodes built on a queue tank (Sewer, QueueGroundwater: family tarea, coq/TimeArea.v) between tank-backed or scripted (accept all / "
         "part / none, varying per call) neighbours, over random pollutant partitions; the whole observable state after "
         "every operation is compared exactly with the Gallina model. monitors: the C09 clauses evaluated directly on the "
         "implementation after every operation of fresh sequences; sewer duo: a real Sewer fed by tagged pushes (pipe_time for default / Sewer tags, pipe_timearea for Land / Demand tags, from the constructor or through apply_overrides) over 4-7 timesteps - what has arrived so far is exactly what was due. non-trivial = distinct sequence of >= 3 operations")
@@ -17,7 +17,7 @@ def duo(rep, thorough):
 
 
 if __name__ == "__main__":
-    sys.exit(comp_check.run("C09", "qtank qarc altarc".split(), RULE,
+    sys.exit(comp_check.run("C09", "qtank qarc altarc tarea".split(), RULE,
                             ["exact-rational semantics stands for float semantics up to rounding",
                              "offers are wet (non-negative, pollutant mass only with positive volume); no arc-level force for capacity clauses",
                              "end nodes respect the reply contract (proved for tank-backed ends)"], extra=duo))
